@@ -154,7 +154,9 @@ func regress(t *testing.T, cases ...caseDesc) {
 	for _, c := range cases {
 		st := dispatch(t, c)
 		if st >= 0 && !fuzzing {
-			evid.Case("regression/"+c.Run, true, fnvKey(append([]byte(c.Run), c.Data...)), nil)
+			evid.CaseFn("regression/"+c.Run, true, fnvKey(append([]byte(c.Run), c.Data...)), func() any {
+				return map[string]any{"entry_point": c.Run, "input_len": len(c.Data), "input": evid.Hex(c.Data)}
+			})
 		}
 	}
 }
